@@ -1,11 +1,27 @@
 """C07 - Transit picks exactly one connection, chosen by the sender, key holders only."""
+import z3
+
 from pyvc.contract import Contract
 from pyvc.runner import ContractTask
 from pyvc.values import *   # noqa
 from .transit_lib import make_transit_registry, BodyLemma, T_PY, TRUSTED_LIB, DEFERRED
+from . import c06
 
 PROP = "C07"
 T = T_PY + ":"
+
+# ---- vocabulary of the _dataReceived contract
+S = "(old(self.buf) + data)"                       # the byte stream seen so far by the handshake parser
+K = "self.owner._transit_key"
+EXP = f"ite(self.owner.is_sender, receiver_hs({K}), sender_hs({K}))"     # what the other side must say
+OWN = f"ite(self.owner.is_sender, sender_hs({K}), receiver_hs({K}))"     # what this side says
+NEG_STATES = "('relay', 'start', 'handshake', 'wait-for-decision', 'go')"
+CONN_FIELDS = {**c06.F_STATE, **c06.F_BUF, **c06.F_RX, **c06.F_QUEUES, **c06.F_CONSUMER, **c06.F_NEG,
+               "transport": "obj[Transport]", "owner": "obj[Common]", "send_nonce": "int", "send_box": "obj[SecretBox]"}
+OLD_HS = "old(self.state) in ('start', 'handshake')"
+OLD_RELAY = "old(self.state) == 'relay'"
+NOW_REC = "self.state == 'records'"
+SENDER = "self.owner.is_sender"
 
 CONTRACTS = [
     Contract(T + "Connection._check_and_remove", props=[PROP], params={"expected": "bytes"},
@@ -38,16 +54,99 @@ CONTRACTS = [
     Contract(T + "Common._expect_this", props=[PROP], params={}, self_fields={"is_sender": "bool", "_transit_key": "bytes"},
              returns="bytes", raises_exactly={"AssertionError": "len(self._transit_key) == 0"},
              ensures=[("opposite-role-handshake", "result == ite(self.is_sender, receiver_hs(self._transit_key), sender_hs(self._transit_key))")]),
+    Contract(T + "Connection._dataReceived", props=[PROP], params={"data": "bytes"}, self_fields=dict(CONN_FIELDS),
+             requires=[f"self.state not in {NEG_STATES} or self._negotiation_d is not None", c06.INV_CONSUMER],
+             modifies=c06.ALL_CONN_FIELDS,
+             raises={"AssertionError": f"self.state == 'too-early' or len({K}) == 0", "BadHandshake": None,
+                     "ValueError": None, "BadNonce": None, "CryptoError": None},
+             ensures=[
+                 # -- the Receiver uses only a connection on which the correct sender handshake followed by 'go' arrived
+                 ("receiver-selects-only-after-sender-handshake-then-go",
+                  f"implies({NOW_REC} and not {SENDER} and {OLD_HS}, {S}.startswith(sender_hs({K}) + b'go\\n'))"),
+                 ("receiver-selects-only-after-sender-handshake-then-go--via-relay",
+                  f"implies({NOW_REC} and not {SENDER} and {OLD_RELAY}, {S}.startswith(b'ok\\n' + sender_hs({K}) + b'go\\n'))"),
+                 ("receiver-selects-only-after-go",
+                  f"implies({NOW_REC} and old(self.state) == 'wait-for-decision', {S}.startswith(b'go\\n'))"),
+                 # -- the Sender confirms only after the correct receiver handshake, and only the first one
+                 ("sender-confirms-only-after-receiver-handshake-and-only-the-first",
+                  f"implies({NOW_REC} and {SENDER} and {OLD_HS}, {S}.startswith(receiver_hs({K})) and "
+                  "old(self.owner._winner) is None)"),
+                 ("sender-confirms-only-after-receiver-handshake-and-only-the-first--via-relay",
+                  f"implies({NOW_REC} and {SENDER} and {OLD_RELAY}, {S}.startswith(b'ok\\n' + receiver_hs({K})) and "
+                  "old(self.owner._winner) is None)"),
+                 # -- waiting states persist only while the stream is a proper prefix of what is expected
+                 ("relay-waits-only-on-a-proper-prefix-of-ok",
+                  f"implies(self.state == 'relay', {OLD_RELAY} and self.buf == {S} and len(self.buf) < 3 and b'ok\\n'.startswith(self.buf))"),
+                 ("handshake-waits-only-on-a-proper-prefix",
+                  f"implies(self.state == 'handshake', len(self.buf) < len({EXP}) and {EXP}.startswith(self.buf))"),
+                 ("only-the-receiver-waits-for-a-decision",
+                  "implies(self.state == 'wait-for-decision', (not self.owner.is_sender or old(self.state) == 'wait-for-decision') and "
+                  "len(self.buf) < 3 and b'go\\n'.startswith(self.buf))"),
+                 ("transient-states-never-persist",
+                  f"implies(old(self.state) in {NEG_STATES}, self.state in ('relay', 'handshake', 'wait-for-decision', 'records'))"),
+                 ("dropped-stays-dropped", "implies(old(self.state) == 'hung up', self.state == 'hung up')"),
+                 ("established-stays-established", "implies(old(self.state) == 'records', self.state == 'records')"),
+                 ("consumer-invariant-kept", c06.INV_CONSUMER)],
+             internal_ensures=[
+                 ("established-only-through-negotiation",
+                  f"implies({NOW_REC} and old(self.state) != 'records', n_calls('_negotiationSuccessful') == 1) and "
+                  "implies(old(self.state) == 'records' or self.state != 'records', n_calls('_negotiationSuccessful') == 0)"),
+                 ("decision-asked-at-most-once-and-only-after-the-handshake-matched",
+                  "n_calls('connection_ready') <= 1 and implies(n_calls('connection_ready') == 1, "
+                  f"old(self.state) in ('relay', 'start', 'handshake') and {S}.startswith(ite({OLD_RELAY}, b'ok\\n', b'') + {EXP}))"),
+                 ("own-handshake-is-the-first-thing-written",
+                  f"implies(old(self.state) == 'start' or ({OLD_RELAY} and self.state != 'relay'), "
+                  f"bcalls('write') >= 1 and bcall_arg('write', 0, 0) == {OWN})"),
+                 ("nothing-written-before-the-relay-says-ok", "implies(self.state == 'relay', len(bcall_names()) == 0)"),
+                 ("sender-says-go-exactly-when-it-selects",
+                  f"implies({NOW_REC} and {SENDER} and old(self.state) in ('relay', 'start', 'handshake'), "
+                  "last_bcall_arg('write', 0) == b'go\\n')"),
+                 ("receiver-never-says-go",
+                  f"implies(not {SENDER} and old(self.state) in ('relay', 'start', 'handshake', 'wait-for-decision'), "
+                  f"bcalls('write') <= 1 and implies(bcalls('write') == 1, bcall_arg('write', 0, 0) == {OWN}))")],
+             ensures_raise={"BadHandshake": [
+                 ("rejected-connection-is-never-established", "self.state != 'records' and n_calls('_negotiationSuccessful') == 0"),
+                 ("loser-is-told-nevermind",
+                  "implies(n_returns('connection_ready') == 1 and self.owner.is_sender, call_result('connection_ready') == 'nevermind' and "
+                  "old(self.owner._winner) is not None and "
+                  "last_bcall_arg('write', 0) == b'nevermind\\n')"),
+                 ("otherwise-only-on-a-wrong-byte--sender",
+                  f"implies(n_returns('connection_ready') == 0 and {SENDER} and old(self.state) in ('relay', 'start', 'handshake'), "
+                  f"diverges({S}, ite({OLD_RELAY}, b'ok\\n', b'') + {EXP}))"),
+                 ("otherwise-only-on-a-wrong-byte--receiver",
+                  f"implies(not {SENDER} and old(self.state) in ('relay', 'start', 'handshake'), "
+                  f"diverges({S}, ite({OLD_RELAY}, b'ok\\n', b'') + {EXP} + b'go\\n'))"),
+                 ("otherwise-only-on-a-wrong-byte--awaiting-go",
+                  f"implies(old(self.state) == 'wait-for-decision', diverges({S}, b'go\\n'))"),
+                 ("no-other-state-rejects", "old(self.state) in ('relay', 'start', 'handshake', 'wait-for-decision', 'nevermind')")]},
+             note="the handshake state machine as a transition function over self.state and the byte stream S = old buf + data: "
+                  "'records' is entered only through _negotiationSuccessful, for the receiver only after exactly "
+                  "[ok\\n] sender_hs(key) go\\n, for the sender only after exactly [ok\\n] receiver_hs(key) and only if "
+                  "connection_ready said 'go' (no winner yet); a loser writes nevermind\\n and raises BadHandshake; any wrong "
+                  "byte raises BadHandshake; callees by contract"),
 ]
 
 
+HELPERS = [c for c in c06.CONTRACTS if c.target in (T + "Connection.dataReceivedRECORDS", T + "Connection._negotiationSuccessful")]
+
+
 def regf(exclude=()):
-    reg = make_transit_registry(CONTRACTS, exclude)
+    reg = make_transit_registry(HELPERS + CONTRACTS, exclude)
+    reg.class_fields["Connection"] = {}
+    sf = reg.spec_funcs
+    sf["diverges"] = lambda it, a, b: VBool(z3.And(z3.Not(z3.PrefixOf(a.z, b.z)), z3.Not(z3.PrefixOf(b.z, a.z))))
+    return reg
+
+
+def regf_opaque_hs():
+    """for the state machine the handshake texts are just two byte strings determined by the key"""
+    reg = regf()
+    reg.hs_opaque = True
     return reg
 
 
 def tasks():
-    return [ContractTask(c, regf) for c in CONTRACTS]
+    return [ContractTask(c, regf_opaque_hs if c.target == T + "Connection._dataReceived" else regf) for c in CONTRACTS]
 
 
 TRUSTED = TRUSTED_LIB
